@@ -161,6 +161,11 @@ func (g *gl) assigned(n ast.Node, scope []*types.Var) []*types.Var {
 				}
 			}
 		case *ast.CallExpr:
+			if id, ok := ast.Unparen(x.Fun).(*ast.Ident); ok && id.Name == "copy" && len(x.Args) == 2 {
+				if v := root(x.Args[0]); v != nil {
+					set[v] = true
+				}
+			}
 			name, fn := g.calleeName(x)
 			switch {
 			case strings.HasPrefix(name, "bytes.Buffer.Write"), name == "bytes.Buffer.Reset":
